@@ -29,11 +29,121 @@ def cases(tier, seed):
     for a in subsets:
         for b in bsub:
             yield {"A": a, "B": b, "alphabet": bounds(tier)["test_alphabet"], "tier": tier}
+    # many tricky categories at once (prefixes of one another, digits, '=', spaces, names of other columns), every prefix length of
+    # the list, each category held out of the training frame in turn
+    for ncat in range(2, len(WIDE) + 1):
+        yield {"ncat": ncat, "hold": []}
+        for h in (range(ncat) if tier == "thorough" or ncat in (len(WIDE), 11) else [(ncat * 5 + seed) % ncat]):
+            yield {"ncat": ncat, "hold": [h]}
     # integer categories whose text order differs from their natural order (2 < 10 < 33 but '10' < '2' < '33'; -1)
     isub = [list(s_) for r in range(0, 4) for s_ in itertools.combinations((2, 10, 33), r)]
     for a in isub:
         for b in ([[], [-1, 2], [10, 2]] if tier == "quick" else isub):
             yield {"A": a, "B": b, "alphabet": [2, 10, 7, None] if tier == "quick" else [2, 10, 33, 7, None], "tier": tier, "ints": True}
+
+
+WIDE = ["a", "ab", "abc", "b", "1", "10", "2", "x=y", "x y", "B", "\u00e9", "A=a", "num", "0.5"]
+
+
+def _wide(case, bad):
+    """Many categories at once, chosen to collide if names were compared by prefix, by text, after splitting at '=' or after
+    a numeric conversion; one test row per category; index and column-dtype variants of the test frame."""
+    import numpy
+    import pandas
+    from mlinsights.mlmodel import CategoriesToIntegers
+
+    cats = WIDE[:case["ncat"]]
+    hold = case["hold"]                      # categories left out of the training frame (unseen at transform time)
+    seenA = [c for i, c in enumerate(cats) if i not in hold]
+    seenB = list(cats)
+    n = len(cats)
+    train = pandas.DataFrame({"A": pandas.Series((seenA[::-1] + [None] * n)[:n], dtype=object), "num": numpy.arange(n) * 0.5,
+                              "flag": [bool(i % 2) for i in range(n)], "B": pandas.Series(seenB, dtype=object)})
+    testA = cats + [None]
+    testB = [None] + cats[::-1]
+    m = len(testA)
+    cnt = ntriv = 0
+    for single, skip, explicit in itertools.product((False, True), (False, True), (True, False)):
+        cond0 = "single=%s,skip_errors=%s,%d categories" % (single, skip, n)
+        try:
+            tr = CategoriesToIntegers(columns=["A", "B"] if explicit else None, skip_errors=skip, single=single).fit(train)
+        except Exception as e:
+            bad("fit raises %s" % type(e).__name__, cond0, "%s categories=%r" % (e, cats))
+            continue
+        for iname, idx in (("default", None), ("strings", ["r%d" % i for i in range(m)]), ("duplicates", [3] * m),
+                           ("descending", list(range(m, 0, -1)))):
+            for dname in ("object", "category", "str"):
+                if dname != "object" and not explicit:
+                    continue
+                try:
+                    test = pandas.DataFrame({"B": pandas.Series(testB, dtype=object), "num": numpy.arange(m) * 1.0 - 2.0,
+                                             "flag": [bool(i % 3) for i in range(m)], "A": pandas.Series(testA, dtype=object)})
+                    if dname != "object":
+                        test["A"] = test["A"].astype(dname)
+                        test["B"] = test["B"].astype(dname)
+                except Exception:
+                    continue
+                if idx is not None:
+                    test.index = idx
+                test0 = test.copy(deep=True)
+                unseen = bool(hold)
+                cnt += 1
+                cond = "%s,%s" % (cond0, "unseen category" if unseen else "all seen")
+                desc = "categories=%r held out of A=%r single=%s skip_errors=%s columns=%s index=%s column dtype=%s" % (
+                    cats, [cats[i] for i in hold], single, skip, "explicit" if explicit else "auto", iname, dname)
+                try:
+                    out = tr.transform(test)
+                    err = None
+                except Exception as e:
+                    out, err = None, e
+                if not test.equals(test0):
+                    bad("input frame modified", cond, desc)
+                if unseen and not skip:
+                    if err is None:
+                        bad("unseen category does not raise", cond, desc)
+                    continue
+                if err is not None:
+                    bad("transform raises %s" % type(err).__name__, cond, "%s %s" % (str(err)[:150], desc))
+                    continue
+                ntriv += 1
+                if list(out.index) != list(test.index):
+                    bad("index not preserved", cond, "%r %s" % (list(out.index)[:5], desc))
+                    continue
+                if list(out["num"]) != list(test0["num"]) or list(out["flag"]) != list(test0["flag"]):
+                    bad("numeric column changed", cond, desc)
+                kept = {"A": sorted(seenA), "B": sorted(seenB)}
+                vals = {"A": testA, "B": testB}
+                for c in "AB":
+                    for i in range(m):
+                        v = vals[c][i]
+                        if single:
+                            got = out[c].iloc[i]
+                            if v is None or v not in kept[c]:
+                                if not (got is None or (isinstance(got, float) and got != got)):
+                                    bad("single=True: missing/unseen value encoded", cond, "%r -> %r %s" % (v, got, desc))
+                            elif got != kept[c].index(v):
+                                bad("single=True: not the rank among sorted categories", cond, "%s=%r -> %r expected %d %s" % (c, v, got, kept[c].index(v), desc))
+                            continue
+                        for u in kept[c]:
+                            name = "%s=%s" % (c, u)
+                            if name not in out.columns:
+                                bad("indicator column missing", cond, "%s %s" % (name, desc))
+                                continue
+                            col = out[name]
+                            if isinstance(col, pandas.DataFrame):
+                                bad("two output columns share a name", cond, "%s %s" % (name, desc))
+                                continue
+                            is_one = col.iloc[i] == 1.0
+                            want = v is not None and v == u
+                            if is_one != want:
+                                bad("indicator set for another value" if is_one else "indicator of the row's value not set", cond,
+                                    "row %d %s=%r cell %s is %r %s" % (i, c, v, name, col.iloc[i], desc))
+                if not single:
+                    names = ["%s=%s" % (c, u) for c in "AB" for u in kept[c]]
+                    for col in out.columns:
+                        if col not in ("num", "flag") and col not in names and (out[col] == 1.0).any():
+                            bad("indicator in an unexpected column", cond, "%s %s" % (col, desc))
+    return cnt, ntriv
 
 
 def run_case(case):
@@ -51,6 +161,10 @@ def run_case(case):
         if sig not in sigs:
             sigs.add(sig)
             viol.append({"sig": sig, "msg": msg})
+
+    if "ncat" in case:
+        cnt, ntriv = _wide(case, bad)
+        return {"viol": viol, "nontrivial": ntriv > 0, "states": cnt, "transitions": cnt * (case["ncat"] + 1), "outcome": ("wide", case["ncat"], len(case["hold"]))}
 
     A, B = case["A"], case["B"]
     nrows = max(len(A), len(B), 1) + 1
